@@ -421,7 +421,7 @@ Definition hist_model (c : World.world * list op) : list value :=
 '''
     eqb = 'vl_eqb'
     model = 'hist_model'
-    quick_n, thorough_n = 40, 800
+    quick_n, thorough_n = 60, 800
     mix = 'all'
 
     def corpus(self):
